@@ -158,6 +158,7 @@ pub fn gen_value(rng: &mut Rng, ty: &str, pool: &Pool) -> Value {
                 bush(rng, 0)
             }
         }
+        "Boxed<u32>" => json!({"v": rng.below(100_000)}),
         "Script" => json!([]),
         "Pay" => json!({"nonce": rng.below(1 << 40), "script": []}),
         other => json!(format!("<<no generator for {other}>>")),
